@@ -18,6 +18,7 @@
  *   MFLUSH                               gd_metaflush only (fragments become clean)
  *   RENAME <code> <new name> <flags hex>   MOVE <code> <frag> <flags hex>   DELETE <code> <flags hex>
  *   UNINCLUDEN <file name>   INCN <parent file name> <file> <px|-> <sx|->     (fragments addressed by name)
+ *   ALTLINCOM / ALTPOLYNOM / ALTRECIP: gd_alter_[c]lincom, gd_alter_[c]polynom, gd_alter_[c]recip with NULL groups (see the code)
  *   ADDSPEC <line> <frag>   MADDSPEC <line> <parent>   ALTERAFFIX <frag> <px|-> <sx|->   NSALTER <frag> <ns>
  *   PUTS <code> <string>   PUTC <code> <I|U|D> <hex64>   ALTERSPEC <line> <recode>   UNINCLUDE <frag>
  *   FLUSH                                metaflush, dump, close, reopen x2
@@ -592,6 +593,35 @@ int main(int argc, char **argv)
         op(gd_include_affix(D, file, found, px, sx,
               GD_CREAT | (gd_endianness(D, found) & (GD_BIG_ENDIAN | GD_LITTLE_ENDIAN))), D);
       }
+    } else if (!strcmp(tok[0], "ALTLINCOM")) {
+      /* ALTLINCOM <code> <complex api 0/1> <n (0 keep)> I <k> <in>*k M <k> (<re> <im>)*k B <k> (<re> <im>)*k   (k = 0: NULL) */
+      const char *inf[GD_MAX_LINCOM], **ip = NULL;
+      double m[2 * GD_MAX_LINCOM], b[2 * GD_MAX_LINCOM], rm[GD_MAX_LINCOM], rb[GD_MAX_LINCOM];
+      int cplx = atoi(tok[2]), n = atoi(tok[3]), k = 4, i, kk, hm = 0, hb = 0;
+      kk = atoi(tok[k + 1]); k += 2;
+      for (i = 0; i < kk && i < GD_MAX_LINCOM; i++) inf[i] = unhex(tok[k + i]);
+      if (kk) ip = inf;
+      k += kk;
+      kk = atoi(tok[k + 1]); k += 2; hm = kk;
+      for (i = 0; i < kk && i < GD_MAX_LINCOM; i++) { m[2 * i] = rm[i] = dbl(tok[k + 2 * i]); m[2 * i + 1] = dbl(tok[k + 2 * i + 1]); }
+      k += 2 * kk;
+      kk = atoi(tok[k + 1]); k += 2; hb = kk;
+      for (i = 0; i < kk && i < GD_MAX_LINCOM; i++) { b[2 * i] = rb[i] = dbl(tok[k + 2 * i]); b[2 * i + 1] = dbl(tok[k + 2 * i + 1]); }
+      if (cplx) op(gd_alter_clincom(D, unhex(tok[1]), n, ip, hm ? (void *)m : NULL, hb ? (void *)b : NULL), D);
+      else op(gd_alter_lincom(D, unhex(tok[1]), n, ip, hm ? rm : NULL, hb ? rb : NULL), D);
+    } else if (!strcmp(tok[0], "ALTPOLYNOM")) {
+      /* ALTPOLYNOM <code> <complex api> <ord (0 keep)> <in|-> A <k> (<re> <im>)*k */
+      double a[2 * (GD_MAX_POLYORD + 1)], ra[GD_MAX_POLYORD + 1];
+      int cplx = atoi(tok[2]), ord = atoi(tok[3]), kk = atoi(tok[6]), i;
+      for (i = 0; i < kk && i <= GD_MAX_POLYORD; i++) { a[2 * i] = ra[i] = dbl(tok[7 + 2 * i]); a[2 * i + 1] = dbl(tok[8 + 2 * i]); }
+      if (cplx) op(gd_alter_cpolynom(D, unhex(tok[1]), ord, unhex(tok[4]), kk ? (void *)a : NULL), D);
+      else op(gd_alter_polynom(D, unhex(tok[1]), ord, unhex(tok[4]), kk ? ra : NULL), D);
+    } else if (!strcmp(tok[0], "ALTRECIP")) {
+      /* ALTRECIP <code> <complex api> <in|-> <re> <im> */
+      double c2[2];
+      c2[0] = dbl(tok[4]); c2[1] = dbl(tok[5]);
+      if (atoi(tok[2])) op(gd_alter_crecip89(D, unhex(tok[1]), unhex(tok[3]), c2), D);
+      else op(gd_alter_recip(D, unhex(tok[1]), unhex(tok[3]), c2[0]), D);
     } else if (!strcmp(tok[0], "ADDSPEC")) {
       op(gd_add_spec(D, unhex(tok[1]), atoi(tok[2])), D);
     } else if (!strcmp(tok[0], "MADDSPEC")) {
